@@ -14,6 +14,7 @@ type Engine struct {
 	frame    *Frame
 	guardOf  map[*types.Var]*guardInfo // guarded package variable -> its lock
 	lockVars map[*types.Var]*guardInfo // guard lock variable -> info
+	prop     string                    // the property being checked
 }
 
 // FuncResult is what verifying one function produced.
